@@ -127,7 +127,11 @@ func runC06Child(cfg *runCfg) error {
 			var o interface{}
 			switch sc.Mode {
 			case "exit":
-				o = c06RunExit(sc.Handler, sc.Mpl, sc.Stream)
+				o = c06RunExit(sc.Handler, sc.Mpl, sc.WithConnack, sc.Stream)
+			case "burst":
+				o = c06RunStreamBurst(sc.Handler, sc.Mpl, sc.Stream)
+			case "conc":
+				o = c06RunConc(sc.Workers, sc.Budget)
 			case "mux":
 				o = c06RunMux(sc.Cfg, sc.Stream)
 			case "alloc":
@@ -685,6 +689,36 @@ func runC06(cfg *runCfg) error {
 	}
 	var streamCases []string
 	nCrash := 0
+	// the placement "in the same burst as CONNACK", the caller of Connect held until the link is down
+	burstIdx := map[int]bool{}
+	addBurst := func(h bool, s []byte, label string) {
+		burstIdx[len(scs)] = true
+		scs = append(scs, sc{h, s, "burst:" + label})
+	}
+	addBurst(true, nil, "peer-closes")
+	addBurst(true, []byte{0xF0, 0}, "reserved-type")
+	addBurst(true, []byte{0x90, 0}, "suback-empty")
+	addBurst(true, append(append([]byte{}, good1...), encPublish(inMsg{Topic: []byte("é\x00"), QoS: 0, Payload: []byte{1}})...), "good+nul-in-topic")
+	addBurst(false, []byte{0x30, 0x80, 0x80, 0x80, 0x80, 0x01}, "length-5-bytes")
+	addBurst(true, q2s[0], "q2-parked")
+	addBurst(true, q2s[1], "q2-parked+malformed")
+	nBurst := 40
+	if cfg.tier != "quick" {
+		nBurst = 400
+	}
+	for i := 0; i < nBurst; i++ {
+		var s []byte
+		for k := r.Intn(3); k > 0; k-- {
+			s = append(s, c06GoodPacket(r)...)
+		}
+		label := "all-good"
+		if r.Intn(4) > 0 {
+			b, l := c06BadPacket(r)
+			s = append(s, b...)
+			label = l
+		}
+		addBurst(r.Intn(4) > 0, s, label)
+	}
 	mplDim := []int{0, 1, 100, 65536}
 	for i, c := range scs {
 		// MaxPayloadLen is a session dimension: it limits outbound messages and must not influence
@@ -696,7 +730,16 @@ func runC06(cfg *runCfg) error {
 		} else {
 			streamCoq, streamDesc = cBytes(c.stream), fmt.Sprintf("%x", c.stream)
 		}
-		o, ok := child.run(c.handler, mpl, c.stream)
+		var o c06StreamObs
+		var ok bool
+		if burstIdx[i] {
+			ok = child.runJSON(&c06Scenario{Mode: "burst", Handler: c.handler, Mpl: mpl, Stream: c.stream}, &o)
+			if ok && strings.HasPrefix(o.Crash, "connect:") {
+				return fmt.Errorf("burst scenario could not connect: %s", o.Crash)
+			}
+		} else {
+			o, ok = child.run(c.handler, mpl, c.stream)
+		}
 		if !ok {
 			crash := child.kill()
 			nCrash++
@@ -711,6 +754,10 @@ func runC06(cfg *runCfg) error {
 			errc = "(Some " + p + ")"
 		}
 		closedOK := len(o.States) == 2 && o.States[0] == "Active:nil" && o.States[1] == "Closed:"+o.Err
+		if burstIdx[i] {
+			// the link ended before the caller of Connect could report Active
+			closedOK = closedOK || (len(o.States) == 1 && o.States[0] == "Closed:"+o.Err)
+		}
 		streamCases = append(streamCases, cTuple(cBool(c.handler), streamCoq, cBool(o.Survived && !o.Hang), fmt.Sprint(o.MaxRead), errc, cBool(closedOK && o.Done), cListInline(o.Events)))
 		dist["stream_"+c.label]++
 		dist["stream_end_"+o.Err]++
@@ -851,6 +898,17 @@ func runC06(cfg *runCfg) error {
 			exitStreams = append(exitStreams, sc{false, b.stream, b.label})
 		}
 	}
+	exitBurst := map[int]bool{}
+	for i, n := 0, len(exitStreams); i < n; i++ {
+		if i < 6 || i%4 == 0 {
+			exitBurst[len(exitStreams)] = true
+			exitStreams = append(exitStreams, sc{exitStreams[i].handler, exitStreams[i].stream, "burst:" + exitStreams[i].label})
+			if v, ok := exitMpl[i]; ok {
+				exitMpl[len(exitStreams)-1] = v
+				exitCoq[len(exitStreams)-1] = exitCoq[i]
+			}
+		}
+	}
 	var exitCases []string
 	for i, c := range exitStreams {
 		mpl := mplDim[i%4]
@@ -861,7 +919,7 @@ func runC06(cfg *runCfg) error {
 			streamDesc = fmt.Sprintf("%x... (%d bytes)", c.stream[:40], len(c.stream))
 		}
 		var o c06ExitObs
-		if !child.runJSON(&c06Scenario{Mode: "exit", Handler: c.handler, Mpl: mpl, Stream: c.stream}, &o) {
+		if !child.runJSON(&c06Scenario{Mode: "exit", Handler: c.handler, Mpl: mpl, WithConnack: exitBurst[i], Stream: c.stream}, &o) {
 			crash := child.kill()
 			nCrash++
 			o = c06ExitObs{Survived: false, Crash: crash}
@@ -879,7 +937,7 @@ func runC06(cfg *runCfg) error {
 		alive := o.Survived && len(o.Stuck) == 0 && ok1 && ok2 && ok3
 		exitCases = append(exitCases, cTuple(cBool(c.handler), streamCoq, cBool(alive), cBool(o.DoneAtEntry), cBool(o.DoneWhileHeld), e1, e2, rep))
 		dist["exit_"+c.label]++
-		m.Families["exit"] = append(m.Families["exit"], map[string]interface{}{"transport": "Close() blocks until released", "handler": c.handler, "max_payload_len": mpl,
+		m.Families["exit"] = append(m.Families["exit"], map[string]interface{}{"transport": "Close() blocks until released", "stream_in_the_same_burst_as_connack": exitBurst[i], "handler": c.handler, "max_payload_len": mpl,
 			"stream": streamDesc, "kind": c.label, "observation": o})
 	}
 	child.kill()
@@ -921,6 +979,44 @@ func runC06(cfg *runCfg) error {
 	cf.def("alloc_cases", "list alloc_case", cList(allocCases))
 	cf.result("V_alloc", "c06_alloc_violations alloc_cases")
 	cf.result("M_alloc", "c06_alloc_mismatches alloc_cases")
+	// ---- concurrent stress: requests of every kind while acknowledgements of every kind arrive ----
+	child, err = c06Spawn()
+	if err != nil {
+		return err
+	}
+	concBudget := 2000
+	if cfg.tier == "thorough" {
+		concBudget = 10000
+	}
+	var concCases []string
+	for _, workers := range []int{6} {
+		var o c06ConcObs
+		if !child.runJSON(&c06Scenario{Mode: "conc", Workers: workers, Budget: concBudget}, &o) {
+			crash := child.kill()
+			nCrash++
+			o = c06ConcObs{Survived: false, Crash: crash}
+			child, err = c06Spawn()
+			if err != nil {
+				return err
+			}
+		}
+		if strings.HasPrefix(o.Crash, "connect:") {
+			return fmt.Errorf("conc scenario could not connect: %s", o.Crash)
+		}
+		errc, okc := perrOpt(o.Err)
+		closedOK := len(o.States) == 2 && o.States[0] == "Active:nil" && o.States[1] == "Closed:"+o.Err && o.Err != "nil"
+		alive := o.Survived && len(o.Stuck) == 0 && okc
+		concCases = append(concCases, cTuple(cBool(alive), errc, cBool(closedOK && o.Done)))
+		m.Distribution["conc_requests_returned"] = o.Requests
+		m.Distribution["conc_acks_sent"] = o.Solicited + o.Unsolicited
+		m.Families["conc"] = append(m.Families["conc"], map[string]interface{}{"scenario": fmt.Sprintf("%d goroutines issue Publish QoS 0/1/2, Subscribe, Unsubscribe in a loop for %d ms on one connected BaseClient; for every packet written the broker answers the solicited acknowledgement and 6 unsolicited acknowledgements of every kind", workers, concBudget),
+			"observation": o})
+	}
+	child.kill()
+	cf.def("conc_cases", "list conc_case", cList(concCases))
+	cf.result("V_conc", "c06_conc_violations conc_cases")
+	cf.result("M_conc", "c06_conc_mismatches conc_cases")
+
 	// ---- streams into a client whose handler is a ServeMux / nested ServeMux / ServeAsync ----
 	child, err = c06Spawn()
 	if err != nil {
@@ -1005,9 +1101,9 @@ func runC06(cfg *runCfg) error {
 	m.Distribution["parse_random"] = nRandParse
 	m.Distribution["parse_panics"] = nPanic
 	m.Distribution["stream_crashes"] = nCrash
-	m.Evaluations = len(parseCases) + len(streamCases) + len(inflightCases) + len(exitCases) + len(allocCases) + len(resubCases) + len(muxCases)
-	m.DistinctNontrivial = nEnumParse + nNulParse + len(streamCases) - dist["stream_all-good"] + len(inflightCases) + len(exitCases) + len(allocCases) + len(resubCases) + len(muxCases)
-	m.Rule = fmt.Sprintf("parsers: every (type, flag) x every body over {00,01,02,80,FF} up to length %d through the hook VerifParse (panics recovered), plus %d random/structured bodies, plus %d PUBLISH bodies whose topic mixes multi-byte / ill-formed UTF-8 fragments with the byte 00 at every position (and the same fragments without 00); streams: corpus of the repaired defects, good PUBLISH + PUBLISH with such a topic + good PUBLISH, an inbound QoS 2 PUBLISH (payload of 1/4/20 distinct bytes) + 1-4 further small packets of 12 kinds (PUBLISH QoS 0/1/2 with smaller/equal/larger payloads, stray acknowledgements, PINGRESP, CONNACK) + its PUBREL, complete and as prefix of a malformed packet, then good packets followed by a malformed packet of 14 kinds / truncation / one-byte mutation / random bytes, fed to a connected BaseClient in a child process with a 6 GiB address-space limit (a crash is attributed to the exact stream); in flight: 1-3 blocking calls (Subscribe with 1-4 filters, Unsubscribe, Publish QoS 1/2, Ping) on a connected BaseClient in a child process, the peer answers with hostile acknowledgements carrying their identifiers (SUBACK with 0/n-1/n+1/n+5/255 codes, failure and illegal codes, flags, short and long bodies, duplicates, other kinds, CONNACK again, truncation), enumerated per request kind plus random combinations; exit: streams (peer closes, malformed kinds, truncation) into a client whose transport blocks in Close() until released, with Done(), Err() and the callback log sampled inside Close(), while it is held, and right after Done() is seen closed; alloc: one QoS 0 PUBLISH whose body (144 MiB; thorough also 1, 70, 129 MiB and 268,435,455 bytes) is generated into the buffers the reader passes to Read, runtime.MemStats.TotalAlloc difference around it; resub: a RetryClient subscribes 1-3 times with 1-3 filters, the broker answers with return codes from {00,01,02,80,03,7F,FF} (every requested QoS x every code for one filter, random combinations, a wrong number of codes for the last Subscribe), the link is lost, SetClient + Connect without session present + Resubscribe + Retry + Ping on a second connection, all in a child process; mux: PUBLISH packets with boundary topic names (empty, /, //, leading/trailing /, $-topics, filter strings, long, ill-formed UTF-8) into a client whose handler is a ServeMux, a nested ServeMux or ServeAsync{ServeMux}, in a child process; MaxPayloadLen of the client is a session dimension (0, 1, 100, 65536) of the stream and exit families, with every malformed kind also sent with a body above MaxPayloadLen+65539 (just above, 200 KiB; thorough 1 MiB). distinct_nontrivial = enumerated parser inputs (distinct by construction) + streams that are not all-good + in-flight scenarios", L, nRandParse, nNulParse)
+	m.Evaluations = len(parseCases) + len(streamCases) + len(inflightCases) + len(exitCases) + len(allocCases) + len(resubCases) + len(muxCases) + len(concCases)
+	m.DistinctNontrivial = nEnumParse + nNulParse + len(streamCases) - dist["stream_all-good"] + len(inflightCases) + len(exitCases) + len(allocCases) + len(resubCases) + len(muxCases) + len(concCases)
+	m.Rule = fmt.Sprintf("parsers: every (type, flag) x every body over {00,01,02,80,FF} up to length %d through the hook VerifParse (panics recovered), plus %d random/structured bodies, plus %d PUBLISH bodies whose topic mixes multi-byte / ill-formed UTF-8 fragments with the byte 00 at every position (and the same fragments without 00); streams: corpus of the repaired defects, good PUBLISH + PUBLISH with such a topic + good PUBLISH, an inbound QoS 2 PUBLISH (payload of 1/4/20 distinct bytes) + 1-4 further small packets of 12 kinds (PUBLISH QoS 0/1/2 with smaller/equal/larger payloads, stray acknowledgements, PINGRESP, CONNACK) + its PUBREL, complete and as prefix of a malformed packet, then good packets followed by a malformed packet of 14 kinds / truncation / one-byte mutation / random bytes, fed to a connected BaseClient in a child process with a 6 GiB address-space limit (a crash is attributed to the exact stream); in flight: 1-3 blocking calls (Subscribe with 1-4 filters, Unsubscribe, Publish QoS 1/2, Ping) on a connected BaseClient in a child process, the peer answers with hostile acknowledgements carrying their identifiers (SUBACK with 0/n-1/n+1/n+5/255 codes, failure and illegal codes, flags, short and long bodies, duplicates, other kinds, CONNACK again, truncation), enumerated per request kind plus random combinations; exit: streams (peer closes, malformed kinds, truncation) into a client whose transport blocks in Close() until released, with Done(), Err() and the callback log sampled inside Close(), while it is held, and right after Done() is seen closed; alloc: one QoS 0 PUBLISH whose body (144 MiB; thorough also 1, 70, 129 MiB and 268,435,455 bytes) is generated into the buffers the reader passes to Read, runtime.MemStats.TotalAlloc difference around it; resub: a RetryClient subscribes 1-3 times with 1-3 filters, the broker answers with return codes from {00,01,02,80,03,7F,FF} (every requested QoS x every code for one filter, random combinations, a wrong number of codes for the last Subscribe), the link is lost, SetClient + Connect without session present + Resubscribe + Retry + Ping on a second connection, all in a child process; mux: PUBLISH packets with boundary topic names (empty, /, //, leading/trailing /, $-topics, filter strings, long, ill-formed UTF-8) into a client whose handler is a ServeMux, a nested ServeMux or ServeAsync{ServeMux}, in a child process; MaxPayloadLen of the client is a session dimension (0, 1, 100, 65536) of the stream and exit families, with every malformed kind also sent with a body above MaxPayloadLen+65539 (just above, 200 KiB; thorough 1 MiB); a second placement of stream and exit cases: in the same burst as CONNACK with the caller of Connect held until the link is down; conc: 6 goroutines issuing requests of every kind for a fixed budget (2 s, thorough 10 s) while solicited and unsolicited acknowledgements of every kind arrive, in a child process. distinct_nontrivial = enumerated parser inputs (distinct by construction) + streams that are not all-good + in-flight scenarios", L, nRandParse, nNulParse)
 	m.Exhaustive = true
 	if err := cf.write(cfg.outDir); err != nil {
 		return err
